@@ -7,27 +7,27 @@ From RV.Model Require Import Utf8 Indexer CodePointSet Insn IR Optimizer Unfold 
 From RV.Spec Require Import IRSem IRShape.
 From RV.Proofs Require Import NodeInd OptDD OptMono OptWalk OptRel.
 
-Lemma promote_loop (bodyf : mst -> option (list mst)) (s : nat -> option (option nat)) (chk : nat -> nat -> bool)
+Lemma promote_loop (okp : nat -> Prop) (bodyf : mst -> option (list mst)) (s : nat -> option (option nat)) (chk : nat -> nat -> bool)
       mn mx gr egs ege :
   (forall q G, bodyf (q, G) = match s q with Some (Some q') => Some [(q', G)] | Some None => Some [] | None => None end) ->
-  (forall q q', s q = Some (Some q') -> chk q q' = true /\ q <> q') ->
+  (forall q q', okp q -> s q = Some (Some q') -> chk q q' = true /\ q <> q' /\ okp q') ->
   (ege - egs = 0)%nat ->
-  forall lf k entry q G r, (k = 0 \/ entry <> q) ->
+  forall lf k entry q G r, okp q -> (k = 0 \/ entry <> q) ->
   loop_results bodyf mn mx gr egs ege lf k entry (q, G) = Some r ->
   l1_results s chk G mn mx gr lf k q = Some r.
 Proof.
-  intros Hb Hinv Hz. induction lf as [|lf IH]; intros k entry q G r Hk E; [discriminate|].
+  intros Hb Hinv Hz. induction lf as [|lf IH]; intros k entry q G r Hq Hk E; [discriminate|].
   cbn [loop_results l1_results] in *. cbn [fst snd] in E. rewrite Hz in E. cbn [reset_groups] in E.
   replace ((0 <? k) && (mn <? k) && (entry =? q)%nat) with false in E.
   2:{ symmetry. destruct Hk as [Hk|Hk]; [subst k; reflexivity|].
       apply Nat.eqb_neq in Hk. rewrite Hk. apply andb_false_r. }
   rewrite Hb in E. destruct (k <? max_val mx); cbn [negb andb] in E.
   - destruct (s q) as [[q'|]|] eqn:Es.
-    + destruct (Hinv q q' Es) as [Hc Hne]. rewrite Hc. rewrite obindm_single in E.
+    + destruct (Hinv q q' Hq Es) as (Hc & Hne & Hq'). rewrite Hc. rewrite obindm_single in E.
       destruct (mn <=? k); cbn [negb] in E.
       * destruct (loop_results bodyf mn mx gr egs ege lf (k + 1) q (q', G)) as [it|] eqn:Ei; [|discriminate].
-        rewrite (IH (k + 1) q q' G it (or_intror Hne) Ei). exact E.
-      * rewrite (IH (k + 1) q q' G r (or_intror Hne) E). reflexivity.
+        rewrite (IH (k + 1) q q' G it Hq' (or_intror Hne) Ei). exact E.
+      * rewrite (IH (k + 1) q q' G r Hq' (or_intror Hne) E). reflexivity.
     + cbn [obindm] in E. destruct (mn <=? k); cbn [negb] in E; [destruct gr|]; exact E.
     + destruct (mn <=? k); cbn [negb] in E; discriminate.
   - destruct (mn <=? k); cbn [negb] in E; exact E.
@@ -37,11 +37,13 @@ Section Promote.
   Variable ix : indexer.
   Variables unicode utf16 : bool.
   Variable h : hay.
+  Variable okp : nat -> Prop.
   Notation IR := (ir_results ix unicode utf16 h).
-  Notation ref := (ref ix unicode utf16 h).
-  Notation PRel := (PRel ix unicode utf16 h).
+  Notation ref := (ref ix unicode utf16 h okp).
+  Notation al := (al ix unicode utf16 h okp).
+  Notation PRel := (PRel ix unicode utf16 h okp).
   (* one step of a one-character node is invertible on this text *)
-  Hypothesis Hstep : forall body fwd s q q', matches_exactly_one_char body = true ->
+  Hypothesis Hstep : forall body fwd s q q', matches_exactly_one_char body = true -> okp q ->
     single_step ix unicode h (negb fwd) body fwd = Some s -> s q = Some (Some q') -> step_inv ix h fwd q q' = true.
 
   Lemma step_inv_neq fwd q q' : step_inv ix h fwd q q' = true -> q <> q'.
@@ -83,16 +85,18 @@ Section Promote.
         destruct (next_if ix fwd h q (bracket_matches b)) as [e|[q'|]]; reflexivity.
   Qed.
 
-  Lemma ref_promote fwd body mn mx gr egs ege : matches_exactly_one_char body = true -> qok body = true ->
+  Lemma ref_promote fwd body mn mx gr egs ege : matches_exactly_one_char body = true -> qok body = true -> al body ->
     (ege - egs = 0)%nat -> ref fwd (NLoop body mn mx gr egs ege) (NLoop1CharBody body mn mx gr).
   Proof.
-    intros H1 Hq Hz. split; [|apply rstep_nol1; reflexivity].
+    intros H1 Hq Ha Hz. split; [|apply rstep_nol1; reflexivity].
     destruct (one_char_step body fwd H1 Hq) as [_ [s [Es Hb]]].
-    apply (rres_fle ix unicode utf16 h fwd _ _ 0%nat). intros [|f] [p G] r E; [discriminate|].
-    rewrite Nat.add_0_r. rewrite ir_loop_eq in E. cbn [ir_results]. rewrite Es. cbn [fst] in E.
+    apply (rres_fleO ix unicode utf16 h okp fwd _ _ 0%nat). intros [|f] [p G] r Hx E; [discriminate|].
+    rewrite Nat.add_0_r. rewrite ir_loop_eq in E. cbn [ir_results]. rewrite Es. cbn [fst] in E, Hx.
     destruct f as [|f]; [discriminate|].
-    eapply (promote_loop (IR (S f) body fwd) s (step_inv ix h fwd) mn mx gr egs ege (Hb f)); [|exact Hz|left; reflexivity|exact E].
-    intros q q' Esq. pose proof (Hstep body fwd s q q' H1 Es Esq) as Hc. split; [exact Hc|apply (step_inv_neq fwd); exact Hc].
+    eapply (promote_loop okp (IR (S f) body fwd) s (step_inv ix h fwd) mn mx gr egs ege (Hb f)); [|exact Hz|exact Hx|left; reflexivity|exact E].
+    intros q q' Hq0 Esq. pose proof (Hstep body fwd s q q' H1 Hq0 Es Esq) as Hc.
+    split; [exact Hc|]. split; [apply (step_inv_neq fwd); exact Hc|].
+    eapply (al_step ix unicode utf16 h okp body (negb fwd) fwd s Ha Es); eauto.
   Qed.
 
   Lemma promote_sound lb n a : promote_1char_loops lb n = Ok a -> PRel lb n (act_node a n).
@@ -100,11 +104,12 @@ Section Promote.
     intros E. destruct n; try (inversion E; subst; apply PRel_refl). cbn [promote_1char_loops] in E.
     destruct (matches_exactly_one_char n) eqn:H1; cbn [negb] in E; [|inversion E; subst; apply PRel_refl].
     destruct (egs <? ege)%nat eqn:Hg; [discriminate|]. inversion E; subst. cbn [act_node].
-    apply Nat.ltb_ge in Hg. intro Hq. cbn [qok] in Hq.
+    apply Nat.ltb_ge in Hg. intros Hq Ha. cbn [qok] in Hq. cbn [OptMono.al] in Ha.
     apply andb_true_iff in Hq as [Hq1 Hq3]. apply andb_true_iff in Hq1 as [Hq1 Hq2]. apply Nat.eqb_eq in Hq3.
     assert (Hz : (ege - egs = 0)%nat) by lia.
     split; [apply ref_promote; assumption|].
-    destruct (one_char_step n true H1 Hq1) as [Hl _]. cbn [qok ng]. rewrite Hq1, Hq2, Hl. split; [reflexivity|lia].
+    destruct (one_char_step n true H1 Hq1) as [Hl _]. cbn [qok ng]. rewrite Hq1, Hq2, Hl.
+    split; [reflexivity|]. split; [exact Ha|lia].
   Qed.
 
   Theorem promote_pass_sound fuel n n' : run_to_fixpoint promote_1char_loops fuel n = Ok n' -> PRel false n n'.
